@@ -92,7 +92,10 @@ Lemma chs_of_kraus_impl_x_eq d (B : nat -> cmat) (Ks : list cmat) a b : (a < d *
 Proof. intros Ha Hb. unfold chs_of_kraus_impl_x, chs_of_kraus_impl. rewrite convert_hs_x_eq by assumption.
   apply convert_hs_ext. apply fz_spec. Qed.
 
-(* process matrix with the computational-basis HS matrix materialised *)
+(* process matrix: by theorem process_matrix_is_choi it IS the Choi matrix, so the two-stage Choi evaluation computes it (d^6 instead of d^8 steps) *)
+Lemma process_matrix_fast_eq d (B : nat -> cmat) (H : cmat) al be : (al < d * d)%nat -> (be < d * d)%nat -> cchoi_fast d B H al be = process_matrix d B H al be.
+Proof. intros Hal Hbe. rewrite (process_matrix_is_choi F d B H al be Hal Hbe). now apply cchoi_fast_eq. Qed.
+(* process matrix with the computational-basis HS matrix materialised (the definition route, executed for d <= 3 as a cross-check of the fast route) *)
 Definition process_matrix_x (d : nat) (B : nat -> cmat) (H : cmat) : cmat :=
   process_matrix_of_cb d (fz (d * d) (d * d) (convert_hs_x d B (comp_basis d) H)).
 Lemma process_matrix_x_eq d (B : nat -> cmat) (H : cmat) al be : (al < d * d)%nat -> (be < d * d)%nat -> process_matrix_x d B H al be = process_matrix d B H al be.
@@ -106,6 +109,40 @@ Definition capply_hs_x (d : nat) (B : nat -> cmat) (H X : cmat) : cmat :=
 Lemma capply_hs_x_eq d (B : nat -> cmat) (H X : cmat) i j : capply_hs_x d B H X i j = capply_hs d B H X i j.
 Proof. unfold capply_hs_x, capply_hs. apply op_of_cvec_ext. eapply veq_trans; [apply vfz_spec|].
   apply (mv_ext (d * d) (d * d)); [apply meq_refl|apply vfz_spec]. Qed.
+
+(* truncate_hs depends on its argument only through the entries i < m, j < n: the executed versions (materialised / fast argument)
+   raise exactly when the model does and return the same entries *)
+Lemma maxn_ext n (f g : nat -> F) : (forall i, (i < n)%nat -> f i = g i) -> maxn n f = maxn n g.
+Proof. induction n as [|n IH]; intros E; cbn [maxn]; [reflexivity|]. rewrite IH by (intros i Hi; apply E; lia). rewrite E by lia. reflexivity. Qed.
+Lemma allb_ext n (p q : nat -> bool) : (forall i, (i < n)%nat -> p i = q i) -> allb n p = allb n q.
+Proof. induction n as [|n IH]; intros E; cbn [allb]; [reflexivity|]. rewrite IH by (intros i Hi; apply E; lia). rewrite E by lia. reflexivity. Qed.
+Definition opt_meq (m n : nat) (x y : option (rmat F)) : Prop :=
+  match x, y with Some R, Some R' => meq m n R R' | None, None => True | _, _ => False end.
+Lemma truncate_hs_ext eps m n (H H' : cmat) : meq m n H H' -> opt_meq m n (truncate_hs eps m n H) (truncate_hs eps m n H').
+Proof. intros E. unfold truncate_hs. cbv zeta.
+  assert (S : hs_size m n H = hs_size m n H').
+  { unfold hs_size. apply maxn_ext; intros i Hi. apply maxn_ext; intros j Hj. now rewrite E. }
+  rewrite S. rewrite (allb_ext m _ (fun i => allb n (fun j => trunc_ok (im_thr eps (hs_size m n H')) (H' i j)))).
+  2:{ intros i Hi. apply allb_ext; intros j Hj. now rewrite E. }
+  destruct (allb m _); cbn [opt_meq]; [|exact I]. intros i j Hi Hj. now rewrite E. Qed.
+Lemma hs_of_choi_sparse_impl_x_eq eps d (B : nat -> cmat) (Ch : cmat) :
+  opt_meq (d * d) (d * d) (truncate_hs eps (d * d) (d * d) (fz (d * d) (d * d) (chs_fast d B Ch))) (hs_of_choi_sparse_impl eps d B Ch).
+Proof. apply truncate_hs_ext. eapply meq_trans; [apply fz_spec|]. intros a b Ha Hb. now apply chs_fast_eq. Qed.
+Lemma hs_of_choi_dict_impl_x_eq eps d (B : nat -> cmat) (Ch : cmat) :
+  opt_meq (d * d) (d * d) (truncate_hs eps (d * d) (d * d) (fz (d * d) (d * d) (chs_dict_fast d B Ch))) (hs_of_choi_dict_impl eps d B Ch).
+Proof. apply truncate_hs_ext. eapply meq_trans; [apply fz_spec|]. intros a b Ha Hb. now apply chs_dict_fast_eq. Qed.
+Lemma hs_of_kraus_impl_x_eq eps d (B : nat -> cmat) (Ks : list cmat) :
+  opt_meq (d * d) (d * d) (truncate_hs eps (d * d) (d * d) (fz (d * d) (d * d) (chs_of_kraus_impl_x d B Ks))) (hs_of_kraus_impl eps d B Ks).
+Proof. apply truncate_hs_ext. eapply meq_trans; [apply fz_spec|]. intros a b Ha Hb. now apply chs_of_kraus_impl_x_eq. Qed.
+(* gate.to_var_from_choi as repaired, executed through the fast Choi -> HS route *)
+Definition var_of_choi_fixed_x (eps : F) (d : nat) (B : nat -> cmat) (para : bool) (Ch : cmat) : option (rvec F) :=
+  match truncate_hs eps (d * d) (d * d) (fz (d * d) (d * d) (chs_fast d B Ch)) with Some R => Some (var_of_hs d para R) | None => None end.
+Lemma var_of_choi_fixed_x_eq eps d (B : nat -> cmat) para (Ch : cmat) :
+  match var_of_choi_fixed_x eps d B para Ch, var_of_choi_fixed eps d B para Ch with
+  | Some w, Some w' => forall k, (k < var_len d para)%nat -> w k = w' k | None, None => True | _, _ => False end.
+Proof. unfold var_of_choi_fixed_x, var_of_choi_fixed. pose proof (hs_of_choi_sparse_impl_x_eq eps d B Ch) as E.
+  destruct (truncate_hs eps (d * d) (d * d) (fz (d * d) (d * d) (chs_fast d B Ch))), (hs_of_choi_sparse_impl eps d B Ch); cbn [opt_meq] in E; try exact E.
+  intros k Hk. destruct (var_index d para k Hk) as [A [A2 _]]. unfold var_of_hs. now apply E. Qed.
 End Fast.
 
 (* ================================================================== wrappers at Qc *)
@@ -195,9 +232,14 @@ Definition op_capply_hs : opfun := fun zs qs =>
   match zs with [dz] => let d := nat_of dz in let '(B, r) := read_basis d qs in
     let n := (2 * (d * d) * (d * d))%nat in
     out_cmat d d (capply_hs_x QF d B (cmat_flat (d * d) (d * d) (firstn n r)) (cmat_flat d d (skipn n r))) | _ => Err (-1) end.
+(* zs=[d] : fast route (process_matrix_fast_eq) ; zs=[d; 1] : the definition route (process_matrix_x_eq) *)
 Definition op_process_matrix : opfun := fun zs qs =>
-  match zs with [dz] => let d := nat_of dz in let '(B, r) := read_basis d qs in
-    out_cmat (d * d) (d * d) (process_matrix_x QF d B (cmat_flat (d * d) (d * d) r)) | _ => Err (-1) end.
+  match zs with
+  | [dz] => let d := nat_of dz in let '(B, r) := read_basis d qs in
+    out_cmat (d * d) (d * d) (cchoi_fast QF d B (cmat_flat (d * d) (d * d) r))
+  | [dz; _] => let d := nat_of dz in let '(B, r) := read_basis d qs in
+    out_cmat (d * d) (d * d) (process_matrix_x QF d B (cmat_flat (d * d) (d * d) r))
+  | _ => Err (-1) end.
 (* zs=[m; n] ; qs = eps :: H (m x n complex) *)
 Definition op_truncate : opfun := fun zs qs =>
   match zs, qs with [m; n], eps :: q => let m' := nat_of m in let n' := nat_of n in
@@ -212,10 +254,17 @@ Definition op_var_of_choi_spec : opfun := fun zs qs =>
   match zs with [dz; p] => let d := nat_of dz in let '(B, r) := read_basis d qs in
     let C := fz QF (d * d) (d * d) (chs_fast QF d B (cmat_flat (d * d) (d * d) r)) in
     out_rvec (var_len d (zb p)) (var_of_hs d (zb p) (cre C)) | _ => Err (-1) end.
-Definition op_var_of_choi_impl : opfun := fun zs qs =>
+(* gate.to_var_from_choi AS CODED BEFORE fix gate-to-var-from-choi-inverse-map (forward map applied to the Choi matrix); diagnosis only *)
+Definition op_var_of_choi_before_fix : opfun := fun zs qs =>
   match zs with [dz; p] => let d := nat_of dz in let '(B, r) := read_basis d qs in
     let C := fz QF (d * d) (d * d) (cchoi_fast QF d B (cmat_flat (d * d) (d * d) r)) in
     out_cvec (var_len d (zb p)) (cvar_of_hs d (zb p) C) | _ => Err (-1) end.
+(* gate.to_var_from_choi as repaired: zs=[d; para] ; qs = eps :: basis ++ Ch  ->  variables | Err 1 (ValueError of truncate_hs) *)
+Definition op_var_of_choi_fixed : opfun := fun zs qs =>
+  match zs, qs with [dz; p], eps :: q => let d := nat_of dz in let '(B, r) := read_basis d q in
+    match var_of_choi_fixed_x QF eps d B (zb p) (cmat_flat (d * d) (d * d) r) with
+    | Some w => out_rvec (var_len d (zb p)) w | None => Err 1 end
+  | _, _ => Err (-1) end.
 (* state: zs=[d; para] ; qs = isd :: basis ++ var   /   eps :: basis ++ X *)
 Definition op_density_of_var : opfun := fun zs qs =>
   match zs, qs with [dz; p], isd :: q => let d := nat_of dz in let '(B, r) := read_basis d q in
@@ -265,7 +314,8 @@ Definition C02_ops : optable :=
     ("c02.hs_of_kraus_impl"%string, op_hs_of_kraus_impl); ("c02.kraus_apply"%string, op_kraus_apply);
     ("c02.capply_hs"%string, op_capply_hs); ("c02.process_matrix"%string, op_process_matrix);
     ("c02.truncate"%string, op_truncate); ("c02.choi_of_var"%string, op_choi_of_var);
-    ("c02.var_of_choi_spec"%string, op_var_of_choi_spec); ("c02.var_of_choi_impl"%string, op_var_of_choi_impl);
+    ("c02.var_of_choi_spec"%string, op_var_of_choi_spec); ("c02.var_of_choi_before_fix"%string, op_var_of_choi_before_fix);
+    ("c02.var_of_choi_fixed"%string, op_var_of_choi_fixed);
     ("c02.density_of_var"%string, op_density_of_var); ("c02.var_of_density_impl"%string, op_var_of_density_impl);
     ("c02.pvecs_of_var"%string, op_pvecs_of_var); ("c02.table"%string, op_table); ("c02.dict"%string, op_dict);
     ("c02.basis_preds"%string, op_basis_preds); ("c02.pauli2"%string, op_pauli2) ].
